@@ -191,6 +191,7 @@ package cli
 // point, so a later error - which lies at or after it, possibly in data read ahead - is inside the
 // window and the offset relative to the window is meaningful.
 //@ property C17
+//@ invariant-of (i *jsonInputIter) i.err == nil ==> 0 <= i.line && i.line <= i.offset
 //@ invariant-of (i *jsonInputIter) i.ir != nil && 0 <= i.offset && i.offset <= ghost(i, "cons") && ghost(i, "cons") <= ghost(i, "read") && ghost(i, "read") <= 1 << 62
 //@ invariant-of (i *jsonInputIter) i.ir.buf != nil ==> i.offset + len(out(i.ir.buf)) == ghost(i, "read")
 
@@ -208,10 +209,35 @@ package cli
 //@ external field.jsonInputIter.pos(i) (n)
 //@   ensures n == ghost(i, "cons")
 
+// Line ends are line feeds plus carriage returns minus the pairs "\r\n" (each pair is one line end). The
+// correction term accounts for a "\r" right before position p whose "\n" lies at p: term does not count it
+// yet, the byte counter does.
+//@ lemma lines_count(s string, p int)
+//@   property C17
+//@   requires 0 <= p && p <= len(s)
+//@   ensures term(s, p) == cnt1(s, 10, p) + cnt1(s, 13, p) - cnt2(s, p) - ((p > 0 && p < len(s) && s[p-1] == 13 && s[p] == 10) ? 1 : 0)
+//@   induct p
+//@   decreases p
+
+// there are at most as many line ends as bytes
+//@ lemma term_bound(s string, p int)
+//@   property C17
+//@   requires 0 <= p && p <= len(s)
+//@   ensures 0 <= term(s, p) && term(s, p) <= p
+//@   induct p
+//@   decreases p
+//@   trigger term(s, p)
+
 //@ func (i *jsonInputIter) Next() (v any, ok bool)
 //@   property C17
 //@   requires i.ir.buf != nil || i.ir.rs != nil
 //@   modifies *
+// the line number kept for the discarded part of the input is its number of line ends, counted as the
+// excerpt logic counts them (LF, CRLF once, lone CR)
+// (after(1, ...): the buffer right after the decoder call, the first call of the function)
+//@   ensures ok && !(v is error) && i.ir.buf != nil && i.offset == old(i.offset) ==> i.line == old(i.line)
+//@   ensures ok && !(v is error) && i.ir.buf != nil && i.offset != old(i.offset) ==> i.offset - old(i.offset) == len(after(1, out(i.ir.buf))) - len(out(i.ir.buf))
+//@   ensures ok && !(v is error) && i.ir.buf != nil && i.offset != old(i.offset) ==> i.line == old(i.line) + term(after(1, out(i.ir.buf))[:len(after(1, out(i.ir.buf))) - len(out(i.ir.buf))], len(after(1, out(i.ir.buf))) - len(out(i.ir.buf)))
 
 // C08: an encoder always has its buffer (newEncoder creates it)
 //@ property C08 C12
